@@ -21,9 +21,11 @@ TARGETS = ["cpu_serial", "cpu_openmp", "opencl", "cuda"]
 BIT = {"cpu_serial": 1, "cpu_openmp": 2, "opencl": 4, "cuda": 8}
 FLOORS = {"sources": 200, "kernel_calls": 5000, "hit_counters_checked": 100000, "n_zero_calls": 150,
           "n_not_multiple_of_block": 150, "multi_block_kernels": 20, "include_lines": 30, "context_lines": 100,
-          "passthrough_lines_checked": 2000, "nested_block_cases": 8, "launch_geometries_seen": 100}
+          "passthrough_lines_checked": 2000, "nested_block_cases": 8, "launch_geometries_seen": 100,
+          "expression_limits": 60, "kernels_inside_included_file": 40}
 FLOORS.update({"target:" + t: 300 for t in TARGETS})
 RULE = ("generated kernel sources from the annotation vocabulary (1-3 vectorize_over/end_vectorize blocks, "
+        "limits that are identifiers or blank-free expressions, the whole kernel optionally inside an included file, "
         "only_for_context lines inside and outside blocks, include_file ... for_context with files in a temp folder, "
         "/*gpukern*/ /*gpufun*/ /*gpuglmem*/ /*restrict*/, unannotated marker lines) x n in {0,1,2,block-1,block,block+1,"
         "2*block+3,1000} x block size {1,2,7,256} x targets {cpu_serial, cpu_openmp ('auto' and 2 threads) through the "
@@ -76,7 +78,7 @@ def gen_source(rng, kname, folder, nested=False):
     plain(f"/* unannotated comment {uid} a */")
     L.append("/*gpukern*/")
     args = [f"/*gpuglmem*/ int32_t* /*restrict*/ hits{b}" for b in range(nb)]
-    L.append(f"void {kname}({', '.join(args)}, /*gpuglmem*/ int32_t* flags, const int n){{")
+    L.append(f"void {kname}({', '.join(args)}, /*gpuglmem*/ int32_t* flags, const int n, const int m1, const int m2){{")
     plain(f"  int unann_{uid} = 3; (void)unann_{uid};")
 
     def ctx_line(inside):
@@ -99,7 +101,12 @@ def gen_source(rng, kname, folder, nested=False):
         plain(f"  flags[{4 + k}] = XV_INC_{uid}_{k};")
         plain("#endif")
     for b in range(nb):
-        L.append(f"  int ii{b}; //vectorize_over ii{b} n")
+        # the limit may be any expression without blanks; the caller passes m1 = n+1 and m2 = 2n or 2n+1,
+        # so every form evaluates to n (the launch size the contexts derive from n_threads)
+        lim = rng.choice(["n", "n", "m1-1", "m2/2", "(m1-1)", "n+m1-m1"])
+        if lim != "n":
+            meta["expr_limits"] = meta.get("expr_limits", 0) + 1
+        L.append(f"  int ii{b}; //vectorize_over ii{b} {lim}")
         plain(f"    hits{b}[ii{b}] += helper_{uid}(0); /* body {uid} {b} */")
         for _ in range(rng.randint(0, 2)):
             ctx_line(True)
@@ -115,12 +122,23 @@ def gen_source(rng, kname, folder, nested=False):
     plain("}")
     plain(f"/* trailer {uid} */")
     meta["passthru"] = passthru
+    meta["kernel_in_include"] = False
+    if rng.random() < 0.3:
+        # the whole kernel (vectorised blocks, context-restricted lines) lives in an included file
+        i0 = L.index("/*gpukern*/")
+        i1 = max(i for i, l in enumerate(L) if l == "}")
+        fn = f"kern_{uid}.h"
+        with open(os.path.join(folder, fn), "w") as f:
+            f.write("\n".join(L[i0:i1 + 1]) + "\n")
+        L[i0:i1 + 1] = [f"//include_file {fn} for_context {' '.join(rng.sample(TARGETS, 4))}"]
+        meta["kernel_in_include"] = True
     return "\n".join(L) + "\n", meta
 
 
 def kernel_desc(kname, nb):
     args = [xo.Arg(xo.Int32, pointer=True, name=f"hits{b}") for b in range(nb)]
-    args += [xo.Arg(xo.Int32, pointer=True, name="flags"), xo.Arg(xo.Int32, name="n")]
+    args += [xo.Arg(xo.Int32, pointer=True, name="flags"), xo.Arg(xo.Int32, name="n"), xo.Arg(xo.Int32, name="m1"),
+             xo.Arg(xo.Int32, name="m2")]
     return {kname: xo.Kernel(args=args, n_threads="n")}
 
 
@@ -145,6 +163,8 @@ def run_case(w, rng):
         w.count("multi_block_kernels")
     w.count("include_lines", len(meta["incs"]))
     w.count("context_lines", meta.get("nctx", 0))
+    w.count("expression_limits", meta.get("expr_limits", 0))
+    w.count("kernels_inside_included_file", int(meta["kernel_in_include"]))
     nvals = sorted({0, 1, 2, max(block - 1, 0), block, block + 1, 2 * block + 3, 1000})
     try:
         for target in TARGETS:
@@ -187,7 +207,7 @@ def run_case(w, rng):
             for n in nvals:
                 hits = [np.zeros(n + GUARD, dtype=np.int32) for _ in range(meta["nblocks"])]
                 flags = np.zeros(8, dtype=np.int32)
-                kw = {"n": n}
+                kw = {"n": n, "m1": n + 1, "m2": 2 * n + rng.choice([0, 1])}
                 for b, hh in enumerate(hits):
                     kw[f"hits{b}"] = _wrap(target, hh)
                 kw["flags"] = _wrap(target, flags)
